@@ -240,10 +240,9 @@ pub fn run_tx<SP: StorageProvider>(
                 let stale = m.started.is_some_and(|e0| e0 != epoch);
                 if stale {
                     stats.stale_adds += 1;
-                    if let Ok(_) | Err(_) = &r {
-                        check_state(rep, &w, &committed, &what)?;
-                        continue;
-                    }
+                    let _ = &r;
+                    check_state(rep, &w, &committed, &what)?;
+                    continue;
                 }
                 let bdesc = batch.iter().map(|b| b.map(|i| short(&w.cmds[i].id)).unwrap_or("foreign-init".into())).collect::<Vec<_>>().join(",");
                 match (&r, &expect) {
